@@ -34,24 +34,30 @@ AQ = "quantized_relu(6,2)"
 
 def build(cls, variant):
   """Returns (model, probe input)."""
+  # variant "explicit_none": optional quantizers are passed as an explicit None (not the same as leaving a default:
+  # QBatchNormalization's defaults are power-of-two quantizers)
+  none = variant == "explicit_none"
+  if none:
+    variant = "fixed"
+  BQ_ = None if none else BQ
   if cls == "QDense":
     i = L.Input((5,))
-    y = QDense(4, kernel_quantizer=wq(variant, 2), bias_quantizer=BQ, activation=AQ)(i)
+    y = QDense(4, kernel_quantizer=wq(variant, 2), bias_quantizer=BQ_, activation=AQ)(i)
   elif cls == "QConv1D":
     i = L.Input((6, 2))
-    y = QConv1D(3, 3, kernel_quantizer=wq(variant, 3), bias_quantizer=BQ)(i)
+    y = QConv1D(3, 3, kernel_quantizer=wq(variant, 3), bias_quantizer=BQ_)(i)
   elif cls == "QConv2D":
     i = L.Input((5, 5, 2))
-    y = QConv2D(3, (2, 2), kernel_quantizer=wq(variant, 4), bias_quantizer=BQ, activation=AQ)(i)
+    y = QConv2D(3, (2, 2), kernel_quantizer=wq(variant, 4), bias_quantizer=BQ_, activation=AQ)(i)
   elif cls == "QDepthwiseConv2D":
     i = L.Input((5, 5, 2))
-    y = QDepthwiseConv2D((2, 2), depthwise_quantizer=wq(variant, 4), bias_quantizer=BQ)(i)
+    y = QDepthwiseConv2D((2, 2), depthwise_quantizer=wq(variant, 4), bias_quantizer=BQ_)(i)
   elif cls == "QSeparableConv1D":
     i = L.Input((6, 2))
-    y = QSeparableConv1D(3, 3, depthwise_quantizer=wq(variant, 4), pointwise_quantizer=wq("fixed", 4), bias_quantizer=BQ)(i)
+    y = QSeparableConv1D(3, 3, depthwise_quantizer=wq(variant, 4), pointwise_quantizer=wq("fixed", 4), bias_quantizer=BQ_)(i)
   elif cls == "QSeparableConv2D":
     i = L.Input((5, 5, 2))
-    y = QSeparableConv2D(3, (2, 2), depthwise_quantizer=wq(variant, 4), pointwise_quantizer=wq("po2", 4), bias_quantizer=BQ)(i)
+    y = QSeparableConv2D(3, (2, 2), depthwise_quantizer=wq(variant, 4), pointwise_quantizer=wq("po2", 4), bias_quantizer=BQ_)(i)
   elif cls == "QActivation":
     i = L.Input((5,))
     act = {"fixed": "quantized_bits(4,1,1)", "auto_axis": "quantized_relu(4,1,negative_slope=0.25)",
@@ -63,7 +69,10 @@ def build(cls, variant):
     y = QAdaptiveActivation("quantized_relu" if variant in ("fixed", "po2", "auto_axis") else "quantized_bits", 5)(i)
   elif cls == "QBatchNormalization":
     i = L.Input((5,))
-    y = QBatchNormalization(gamma_quantizer=wq("po2", 1) if variant == "po2" else "quantized_bits(8,3,1)")(i)
+    if none:
+      y = QBatchNormalization(gamma_quantizer=None, beta_quantizer=None, mean_quantizer=None, variance_quantizer=None)(i)
+    else:
+      y = QBatchNormalization(gamma_quantizer=wq("po2", 1) if variant == "po2" else "quantized_bits(8,3,1)")(i)
   elif cls == "QAveragePooling2D":
     i = L.Input((4, 4, 2))
     y = QAveragePooling2D((2, 2), average_quantizer="quantized_bits(6,0,1)", activation="quantized_bits(8,3,1)")(i)
@@ -72,26 +81,26 @@ def build(cls, variant):
     y = QGlobalAveragePooling2D(average_quantizer="quantized_bits(6,0,1)")(i)
   elif cls in ("QSimpleRNN", "QLSTM", "QGRU"):
     i = L.Input((4, 3))
-    kw = dict(kernel_quantizer=wq(variant, 2), recurrent_quantizer=wq("fixed", 2), bias_quantizer=BQ)
+    kw = dict(kernel_quantizer=wq(variant, 2), recurrent_quantizer=wq("fixed", 2), bias_quantizer=BQ_)
     if cls == "QGRU":
       kw["reset_after"] = False
     y = getattr(qkeras, cls)(3, **kw)(i)
   elif cls == "QBidirectional":
     i = L.Input((4, 3))
-    y = QBidirectional(QLSTM(2, kernel_quantizer=wq(variant, 2), recurrent_quantizer=wq("fixed", 2), bias_quantizer=BQ))(i)
+    y = QBidirectional(QLSTM(2, kernel_quantizer=wq(variant, 2), recurrent_quantizer=wq("fixed", 2), bias_quantizer=BQ_))(i)
   elif cls == "QConv2DBatchnorm":
     i = L.Input((5, 5, 2))
-    y = QConv2DBatchnorm(3, (2, 2), kernel_quantizer=wq(variant, 4), bias_quantizer=BQ)(i)
+    y = QConv2DBatchnorm(3, (2, 2), kernel_quantizer=wq(variant, 4), bias_quantizer=BQ_)(i)
   elif cls == "QDepthwiseConv2DBatchnorm":
     i = L.Input((5, 5, 2))
-    y = QDepthwiseConv2DBatchnorm((2, 2), depthwise_quantizer=wq(variant, 4), bias_quantizer=BQ)(i)
+    y = QDepthwiseConv2DBatchnorm((2, 2), depthwise_quantizer=wq(variant, 4), bias_quantizer=BQ_)(i)
   elif cls == "QScaleShift":
     i = L.Input((5,))
-    y = QScaleShift(weight_quantizer=wq(variant if variant in ("fixed", "po2") else "fixed", 1), bias_quantizer=BQ)(i)
+    y = QScaleShift(weight_quantizer=wq(variant if variant in ("fixed", "po2") else "fixed", 1), bias_quantizer=BQ_)(i)
   else:
     raise ValueError(cls)
   m = tf.keras.Model(i, y)
-  rs = np.random.RandomState(sum(map(ord, cls + variant)))
+  rs = np.random.RandomState(sum(map(ord, cls + variant + ("none" if none else ""))))
   # discriminating weights: per-row / per-column magnitude ramps so that scale axes and exponent bounds matter
   ws = []
   for w in m.get_weights():
